@@ -11,6 +11,7 @@ import (
 	"bytes"
 	"fmt"
 	"sync"
+	"sync/atomic"
 	"testing"
 	"time"
 
@@ -116,12 +117,26 @@ func runC15m(tb stat.TB, c c15mCase) {
 			}
 			<-start
 			wdone := make(chan error, 1)
-			go func() { wdone <- pc.SendRaw(stream) }()
+			var werr atomic.Value
+			go func() {
+				// (a generous deadline: on a busy machine five clients with 70 KB replies take their time)
+				pc.C.SetWriteDeadline(time.Now().Add(90 * time.Second))
+				_, err := pc.C.Write(stream)
+				if err != nil {
+					werr.Store(err.Error())
+				}
+				wdone <- err
+			}()
 			for k, call := range calls {
 				if c.SlowUs[ci] > 0 {
 					time.Sleep(time.Duration(c.SlowUs[ci]) * time.Microsecond)
 				}
-				rec, err := pc.Recv(20 * time.Second)
+				rec, err := pc.Recv(60 * time.Second)
+				if err != nil && werr.Load() != nil {
+					// the calls were not all handed over (the harness' own writer gave up): nothing to judge
+					stat.Label("stream_writer_gave_up", 1)
+					return
+				}
 				if err != nil {
 					report("connection-starved-or-dropped", "client %d: reply %d of %d did not arrive (%v) while %d other connections were being served", ci, k, len(calls), err, c.Clients-1)
 					return
